@@ -415,6 +415,21 @@ func (p *Path) EqVal(a, b Val) *smt.Term {
 func isZero(t *smt.Term) bool { return t != nil && t.Op == "bvconst" && t.C.Sign() == 0 }
 
 func (p *Path) convert(v Val, from, to types.Type) Val {
+	r := p.convert0(v, from, to)
+	// conversions to a type registered for concretisation (e.g. expr.Width,
+	// which determines the shape of expression trees) fork over the
+	// feasible values of the result
+	if n, ok := to.(*types.Named); ok && p.M.Concretize != nil && n.Obj() != nil && n.Obj().Pkg() != nil {
+		if lim, want := p.M.Concretize[n.Obj().Pkg().Path()+"."+n.Obj().Name()]; want {
+			if t, isT := r.(*smt.Term); isT && !t.IsConst() {
+				return p.ConcretizeTerm(t, lim)
+			}
+		}
+	}
+	return r
+}
+
+func (p *Path) convert0(v Val, from, to types.Type) Val {
 	fu, tu := from.Underlying(), to.Underlying()
 	if wf, sf, ok := isInt(from); ok {
 		if wt, _, ok := isInt(to); ok {
@@ -525,11 +540,16 @@ func (p *Path) SliceElems(s Slice) []Val {
 	if n == 0 {
 		return nil
 	}
+	a := p.Heap[s.Obj].(*Arr)
 	off, ok := s.Off.Uint64()
 	if !ok {
-		panic(unsupported("slice with symbolic offset"))
+		// a window of concrete length at a symbolic position
+		out := make([]Val, n)
+		for i := range out {
+			out[i] = p.arrGet(a, smt.BVAdd(s.Off, i64(int64(i))), "slice window")
+		}
+		return out
 	}
-	a := p.Heap[s.Obj].(*Arr)
 	if a.Elems == nil {
 		out := make([]Val, n)
 		for i := range out {
